@@ -14,6 +14,7 @@ import (
 	"errors"
 	"flag"
 	"fmt"
+	"iter"
 	"math/rand"
 	"os"
 	"sort"
@@ -45,11 +46,13 @@ type scenario struct {
 	Actions   []string `json:"actions"`  // at the pause: cancel | close | close2
 	Fault     string   `json:"fault"`    // "" | kind#n
 	Corrupt   string   `json:"corrupt"`  // "" | f#b : a byte of that block's row data is flipped in the store
+	Mid       []string `json:"mid"`      // once the pause is released and a Close issued there has returned, before a stalled consumer resumes: cancel
 	After     []string `json:"after"`    // after the first false: next | close | cancel
 	Queries   int      `json:"queries"`  // multi: concurrent queries
 	Stalled   int      `json:"stalled"`  // multi: how many of them never call Next
 	GateReads bool     `json:"gate_reads"`
-	Big       int      `json:"big"` // distinct tokens added to every block: filter sections of MiBs, so the region spans several chunks
+	SlowIter  int      `json:"slow_iter"` // ms the MetaStore iterator takes to wind down once its consumer stops (a slow cursor close)
+	Big       int      `json:"big"`       // distinct tokens added to every block: filter sections of MiBs, so the region spans several chunks
 }
 
 type handleObs struct {
@@ -91,6 +94,8 @@ type qobs struct {
 	Alien                  int      `json:"alien"`
 	RowNilAfter            bool     `json:"row_nil_after"`
 	IterOpenAtDone         bool     `json:"iter_open_at_done"`
+	IterOpenAtFalse        bool     `json:"iter_open_at_false"`     // sampled the moment Next returned false
+	IterOpenAtCloseRet     bool     `json:"iter_open_at_close_ret"` // sampled the moment Close returned
 	Stats                  statsObs `json:"stats"`
 	Stalled                bool     `json:"stalled"`
 	CorruptScanned         bool     `json:"corrupt_scanned"` // the corrupted block has a processed stats entry
@@ -302,6 +307,24 @@ type world struct {
 	corruptKey string
 }
 
+// slowMeta makes the iterator's wind-down take a while: a query that reports its terminal state before the iterator has
+// returned is caught with the iterator still open.
+type slowMeta struct {
+	bs.MetaStore
+	delay time.Duration
+}
+
+func (m slowMeta) GetMaybeFilesForQuery(ctx context.Context, p *bs.QueryPrefilter) iter.Seq2[bs.MaybeFile, error] {
+	return func(yield func(bs.MaybeFile, error) bool) {
+		defer time.Sleep(m.delay)
+		for mf, err := range m.MetaStore.GetMaybeFilesForQuery(ctx, p) {
+			if !yield(mf, err) {
+				return
+			}
+		}
+	}
+}
+
 func cfgFor(n int) bs.BloomSearchEngineConfig {
 	cfg := bs.DefaultBloomSearchEngineConfig()
 	cfg.MaxQueryConcurrency = n
@@ -469,7 +492,11 @@ func finishWorld(w *world, sc scenario) (*world, error) {
 	}
 	w.c = newCtl(w.seq)
 	w.data = &h.InstrData{Inner: w.rawData, C: w.c}
-	w.meta = &h.InstrMeta{Inner: w.rawMeta, C: w.c}
+	inner := w.rawMeta
+	if sc.SlowIter > 0 {
+		inner = slowMeta{MetaStore: w.rawMeta, delay: time.Duration(sc.SlowIter) * time.Millisecond}
+	}
+	w.meta = &h.InstrMeta{Inner: inner, C: w.c}
 	w.eng, err = bs.NewBloomSearchEngine(cfgFor(sc.N), w.meta, w.data)
 	if err != nil {
 		return nil, err
@@ -581,8 +608,12 @@ func (r *runner) consume(limit int) bool {
 	for limit != 0 {
 		if !r.res.Next() {
 			seq := r.w.seq.Add(1)
+			r.w.c.mu.Lock()
+			open := r.w.c.iterOpen[r.q] != 0
+			r.w.c.mu.Unlock()
 			err := r.res.Err()
 			r.mu.Lock()
+			r.o.IterOpenAtFalse = open
 			r.o.FirstFalse = seq
 			r.o.ErrAtFalse = classify(err)
 			if err != nil {
@@ -633,7 +664,13 @@ func (r *runner) doClose() {
 		defer r.closeWG.Done()
 		err := r.res.Close()
 		s := r.w.seq.Add(1)
+		r.w.c.mu.Lock()
+		open := r.w.c.iterOpen[r.q] != 0
+		r.w.c.mu.Unlock()
 		r.mu.Lock()
+		if open {
+			r.o.IterOpenAtCloseRet = true
+		}
 		if r.o.CloseRetSeq == 0 {
 			r.o.CloseRetSeq = s
 		}
@@ -766,6 +803,15 @@ func runSolo(sc scenario, scratch string, guard *h.StdioGuard) (o obs) {
 			}
 		}
 		release()
+	}
+	// between a Close that has returned (it decided the terminal state) and the consumer's next call
+	if len(sc.Mid) > 0 && limit >= 0 {
+		waitWG(&r.closeWG, allowance)
+		for _, a := range sc.Mid {
+			if a == "cancel" {
+				r.doCancel()
+			}
+		}
 	}
 	// let a take:k / stall consumer finish after the pipeline had its chance to fill the buffers
 	if limit >= 0 {
@@ -1150,6 +1196,9 @@ func generate(tier string, seed int64, scratch string, guard *h.StdioGuard) []sc
 		if sc.After == nil {
 			sc.After = []string{}
 		}
+		if sc.Mid == nil {
+			sc.Mid = []string{}
+		}
 		if sc.Engine == "" {
 			sc.Engine = []string{"fresh", "started", "stopped"}[rng.Intn(3)]
 		}
@@ -1170,7 +1219,8 @@ func generate(tier string, seed int64, scratch string, guard *h.StdioGuard) []sc
 	}
 	consumers := []string{"drain", "take:1", "stall"}
 	actionSets := [][]string{{"cancel"}, {"close"}, {"cancel", "close"}, {"close", "cancel"}, {"close", "close2"}}
-	afters := [][]string{{"next", "close", "next"}, {"close", "cancel", "next", "close"}, {"cancel", "next"}, {"next", "next"}}
+	afters := [][]string{{"next", "close", "next"}, {"close", "cancel", "next", "close"}, {"cancel", "next"}, {"next", "next"},
+		{"cancel", "close", "next"}, {"cancel", "close"}}
 	for si, sh := range shapes {
 		// baselines
 		for _, cons := range consumers {
@@ -1200,6 +1250,15 @@ func generate(tier string, seed int64, scratch string, guard *h.StdioGuard) []sc
 						add(sc)
 					}
 				}
+				// Close decides the terminal state; the caller cancels afterwards; then the consumer calls Next
+				if (n+si)%2 == 0 || tier == "thorough" {
+					for _, cons := range []string{"stall", "take:1"} {
+						sc := sh
+						sc.Pause, sc.Actions, sc.Mid, sc.Consumer = p, []string{"close"}, []string{"cancel"}, cons
+						sc.After = []string{"next", "close"}
+						add(sc)
+					}
+				}
 				// a failure at every position; alone, and followed by a cancel / close at a later pause
 				for _, cons := range []string{"drain", "take:1"} {
 					sc := sh
@@ -1219,6 +1278,25 @@ func generate(tier string, seed int64, scratch string, guard *h.StdioGuard) []sc
 				}
 			}
 		}
+		// a MetaStore whose iterator is slow to wind down: iterator errors, and Close / cancel while the file stage
+		// holds a candidate it cannot hand over (stalled consumer, many files)
+		for _, k := range kinds {
+			if k != "yield" && k != "iter" {
+				continue
+			}
+			for n := 1; n <= pos[k]; n++ {
+				sc := sh
+				sc.SlowIter, sc.Fault, sc.Consumer = 120, fmt.Sprintf("%s#%d", k, n), "drain"
+				sc.After = []string{"next", "close"}
+				add(sc)
+				for _, as := range [][]string{{"close"}, {"cancel"}} {
+					sc := sh
+					sc.SlowIter, sc.Pause, sc.Actions, sc.Consumer = 120, fmt.Sprintf("%s#%d", k, n), as, consumers[rng.Intn(3)]
+					sc.After = []string{"next"}
+					add(sc)
+				}
+			}
+		}
 		// corrupted row data in each block (the read succeeds, verification fails)
 		for f := 1; f <= sh.Files; f++ {
 			for b := 1; b <= sh.Blocks; b++ {
@@ -1229,6 +1307,14 @@ func generate(tier string, seed int64, scratch string, guard *h.StdioGuard) []sc
 					add(sc)
 				}
 			}
+		}
+	}
+	// a backed-up pipeline: many candidate files, a consumer that never reads, then Close / cancel, with a slow iterator
+	for _, as := range [][]string{{"close"}, {"cancel"}, {"cancel", "close"}} {
+		for _, nf := range []int{12, 30} {
+			sc := scenario{N: 1, Files: nf, Blocks: 1, Rows: 70, Bloom: true, Match: "all", SlowIter: 150, Consumer: "stall",
+				Pause: fmt.Sprintf("yield#%d", nf-2), Actions: as, After: []string{"next"}}
+			add(sc)
 		}
 	}
 	// several queries sharing the budget, every read held until quiescence
